@@ -40,9 +40,9 @@ theorem md_get_mk (τ : St) (rip : Nat) (fl : Option X86.Flags) (mem : List Regi
     (mis : Nat) (k : Nat) :
     St.get { reg := τ.reg, rip := rip, flags := fl, mem := mem, log := log, misaligned := mis } k = τ.get k := rfl
 
-theorem md_save (c : Cfg) {pre : List Region} {base size : Nat} {σ : St} {ret : Nat} (D : Nat)
-    (hns : md_NS pre base size σ [ret]) (hsz : 64 ≤ size) :
-    ∃ σ1, md_Steps c (md_saveL D) σ σ1 ∧ md_NS pre base size σ1 ([ret] ++ md_sv D (σ.get 0) (σ.get 2)) ∧
+theorem md_save (c : Cfg) {pre : List Region} {base size top : Nat} {hi : Nat → BitVec 8} {σ : St} {ret : Nat} (D : Nat)
+    (hns : md_NS pre base size top hi σ [ret]) (hsz : base + 72 ≤ top) :
+    ∃ σ1, md_Steps c (md_saveL D) σ σ1 ∧ md_NS pre base size top hi σ1 ([ret] ++ md_sv D (σ.get 0) (σ.get 2)) ∧
       ∀ r, r ≠ 4 → σ1.get r = σ.get r := by
   by_cases h0 : D = 0
   · subst h0
@@ -65,10 +65,10 @@ theorem md_save (c : Cfg) {pre : List Region} {base size : Nat} {σ : St} {ret :
       intro r hr
       rw [hg2, get_set_ne _ _ _ _ (Ne.symm hr), hg1, get_set_ne _ _ _ _ (Ne.symm hr)]
 
-theorem md_compute_mul (c : Cfg) {pre : List Region} {base size : Nat} {σ1 : St} {S : List Nat} (D : Nat) (w : Bool)
-    (X : Instr) (dv : BitVec 64) (hns : md_NS pre base size σ1 S) (hD1 : D ≠ 1)
+theorem md_compute_mul (c : Cfg) {pre : List Region} {base size top : Nat} {hi : Nat → BitVec 8} {σ1 : St} {S : List Nat} (D : Nat) (w : Bool)
+    (X : Instr) (dv : BitVec 64) (hns : md_NS pre base size top hi σ1 S) (hD1 : D ≠ 1)
     (hX : md_Step c X σ1 (σ1.set 1 dv)) :
-    ∃ σ2, md_Steps c [X, movRR D 0, .mul w 1] σ1 σ2 ∧ md_NS pre base size σ2 S ∧
+    ∃ σ2, md_Steps c [X, movRR D 0, .mul w 1] σ1 σ2 ∧ md_NS pre base size top hi σ2 S ∧
       σ2.get 0 = md_mulLo w (σ1.get D) dv ∧ ∀ r, r ≠ 0 → r ≠ 1 → r ≠ 2 → σ2.get r = σ1.get r := by
   have hm := md_step_movRR c (σ1.set 1 dv) D 0
   have eD : (σ1.set 1 dv).get D = σ1.get D := get_set_ne _ _ _ _ (Ne.symm hD1)
@@ -83,10 +83,10 @@ theorem md_compute_mul (c : Cfg) {pre : List Region} {base size : Nat} {σ1 : St
   · intro r h0 h1 h2
     simp [get_set, md_get_mk, Ne.symm h0, Ne.symm h1, Ne.symm h2]
 
-theorem md_compute_div (c : Cfg) {pre : List Region} {base size : Nat} {σ1 : St} {S : List Nat} (D : Nat) (w : Bool)
-    (X : Instr) (dv : BitVec 64) (hns : md_NS pre base size σ1 S) (hD1 : D ≠ 1)
+theorem md_compute_div (c : Cfg) {pre : List Region} {base size top : Nat} {hi : Nat → BitVec 8} {σ1 : St} {S : List Nat} (D : Nat) (w : Bool)
+    (X : Instr) (dv : BitVec 64) (hns : md_NS pre base size top hi σ1 S) (hD1 : D ≠ 1)
     (hX : md_Step c X σ1 (σ1.set 1 dv)) (hnz : md_nz w dv) :
-    ∃ σ2, md_Steps c [X, movRR D 0, .aluRR false .xor 2 2, .div w 1] σ1 σ2 ∧ md_NS pre base size σ2 S ∧
+    ∃ σ2, md_Steps c [X, movRR D 0, .aluRR false .xor 2 2, .div w 1] σ1 σ2 ∧ md_NS pre base size top hi σ2 S ∧
       σ2.get 0 = md_divQ w (σ1.get D) dv ∧ σ2.get 2 = md_divR w (σ1.get D) dv ∧
       ∀ r, r ≠ 0 → r ≠ 1 → r ≠ 2 → σ2.get r = σ1.get r := by
   have hm := md_step_movRR c (σ1.set 1 dv) D 0
@@ -105,9 +105,9 @@ theorem md_compute_div (c : Cfg) {pre : List Region} {base size : Nat} {σ1 : St
   · intro r h0 h1 h2
     simp [get_set, md_get_mk, Ne.symm h0, Ne.symm h1, Ne.symm h2]
 
-theorem md_restore (c : Cfg) {pre : List Region} {base size : Nat} {σ2 : St} {ret : Nat} (D : Nat) (m : Bool)
-    (rax0 rdx0 : BitVec 64) (hns : md_NS pre base size σ2 ([ret] ++ md_sv D rax0 rdx0)) (hD : D < 16) (hD4 : D ≠ 4) :
-    ∃ σ3, md_Steps c (md_restoreL D m) σ2 σ3 ∧ md_NS pre base size σ3 [ret] ∧
+theorem md_restore (c : Cfg) {pre : List Region} {base size top : Nat} {hi : Nat → BitVec 8} {σ2 : St} {ret : Nat} (D : Nat) (m : Bool)
+    (rax0 rdx0 : BitVec 64) (hns : md_NS pre base size top hi σ2 ([ret] ++ md_sv D rax0 rdx0)) (hD : D < 16) (hD4 : D ≠ 4) :
+    ∃ σ3, md_Steps c (md_restoreL D m) σ2 σ3 ∧ md_NS pre base size top hi σ3 [ret] ∧
       σ3.get D = (if m then σ2.get 2 else σ2.get 0) ∧ (D ≠ 0 → σ3.get 0 = rax0) ∧ (D ≠ 2 → σ3.get 2 = rdx0) ∧
       ∀ r, r ≠ 0 → r ≠ 2 → r ≠ 4 → r ≠ D → σ3.get r = σ2.get r := by
   by_cases h0 : D = 0
@@ -175,14 +175,14 @@ theorem md_restore (c : Cfg) {pre : List Region} {base size : Nat} {σ2 : St} {r
 
 /-- the whole block: dst receives the result, rcx is clobbered, everything else (rsp and the native stack included) is
     as before -/
-theorem md_block_steps (c : Cfg) {pre : List Region} {base size : Nat} {σ : St} {ret : Nat} (D : Nat) (k : md_Kind) (w : Bool)
-    (X : Instr) (dv : BitVec 64) (hns : md_NS pre base size σ [ret]) (hsz : 64 ≤ size) (hD : D < 16) (hD1 : D ≠ 1) (hD4 : D ≠ 4)
+theorem md_block_steps (c : Cfg) {pre : List Region} {base size top : Nat} {hi : Nat → BitVec 8} {σ : St} {ret : Nat} (D : Nat) (k : md_Kind) (w : Bool)
+    (X : Instr) (dv : BitVec 64) (hns : md_NS pre base size top hi σ [ret]) (hsz : base + 72 ≤ top) (hD : D < 16) (hD1 : D ≠ 1) (hD4 : D ≠ 4)
     (hX : ∀ σ1, (∀ r, r ≠ 4 → σ1.get r = σ.get r) → md_Step c X σ1 (σ1.set 1 dv)) (hnz : k ≠ .mul → md_nz w dv) :
-    ∃ σ', md_Steps c (md_block D k w X) σ σ' ∧ md_NS pre base size σ' [ret] ∧ σ'.get D = md_res k w (σ.get D) dv ∧
+    ∃ σ', md_Steps c (md_block D k w X) σ σ' ∧ md_NS pre base size top hi σ' [ret] ∧ σ'.get D = md_res k w (σ.get D) dv ∧
       ∀ r, r ≠ D → r ≠ 1 → r ≠ 4 → σ'.get r = σ.get r := by
   obtain ⟨σ1, hs1, hn1, hg1⟩ := md_save c D hns hsz
   have hX1 := hX σ1 hg1
-  have hcomp : ∃ σ2, md_Steps c (md_computeL D k w X) σ1 σ2 ∧ md_NS pre base size σ2 ([ret] ++ md_sv D (σ.get 0) (σ.get 2)) ∧
+  have hcomp : ∃ σ2, md_Steps c (md_computeL D k w X) σ1 σ2 ∧ md_NS pre base size top hi σ2 ([ret] ++ md_sv D (σ.get 0) (σ.get 2)) ∧
       (if k = .mod then σ2.get 2 else σ2.get 0) = md_res k w (σ1.get D) dv ∧ ∀ r, r ≠ 0 → r ≠ 1 → r ≠ 2 → σ2.get r = σ1.get r := by
     cases k with
     | mul =>
